@@ -415,8 +415,13 @@ class TFLiteSerialiser:
         inputs = [self.tensor_map_sg[tens] for tens in sg.original_inputs if tens in self.tensor_map_sg]
 
         inputs_offset = self.write_int_vector(inputs)
+        output_tensors = sg.output_tensors
+        positions = sg.original_output_positions
+        if positions is not None and all(pos < len(output_tensors) for pos in positions):
+            # Restore the original output list, including a tensor that was listed more than once
+            output_tensors = [output_tensors[pos] for pos in positions]
         outputs_offset = self.write_int_vector(
-            [self.tensor_map_sg[tens] for tens in sg.output_tensors if tens in self.tensor_map_sg]
+            [self.tensor_map_sg[tens] for tens in output_tensors if tens in self.tensor_map_sg]
         )
 
         operators_offset = self.write_offset_vector([self.serialise_operator(op) for op in all_ops])
